@@ -82,7 +82,13 @@ type dptRec struct {
 	SPan  int    `json:"span"` // String() or Unit() panicked
 	In    Val    `json:"in"`   // enc: the value that was encoded
 	Idx   int    `json:"idx"`  // enc: position in the sorted input list of this type
+	Reuse int    `json:"reuse"` // 1 = decoding the same payload into a receiver that held an earlier value gave another value / verdict
 }
+
+// one long-lived receiver per type: it holds whatever the previous accepted payload of that type left in it
+var usedReceiver = map[string]dpt.Datapoint{}
+var usedPool = map[string][][]byte{}
+var usedRng = rand.New(rand.NewSource(20))
 
 func splitName(n string) (int, int) {
 	m, s, dot := 0, 0, false
@@ -118,6 +124,35 @@ func roundTrip(o *Out, name string, b []byte, op string) {
 			return
 		}
 		r.OK1, r.V1 = 1, valOf(d)
+		// the decoded value is a function of the payload: a receiver that was used before must end up with the same value
+		// (and re-encode to the same bytes) as a fresh one
+		u := usedReceiver[name]
+		if u == nil {
+			u, _ = dpt.Produce(name)
+			usedReceiver[name] = u
+		}
+		// (what it holds is the decoding of one of up to 16 earlier accepted payloads of the type, picked at random)
+		pool := usedPool[name]
+		if len(pool) > 0 {
+			_ = u.Unpack(pool[usedRng.Intn(len(pool))])
+		}
+		// ... and of perturbations of the payload at hand (whichever of them the decoder accepts): every field that can
+		// differ does differ from what is decoded next
+		for _, m := range []byte{0xff, 0xa5, 0x5a, 0x21, 0xe0} {
+			pb := append([]byte{}, b...)
+			for i := 1; i < len(pb); i++ {
+				pb[i] ^= m
+			}
+			Guarded(func() { _ = u.Unpack(pb) })
+		}
+		if len(pool) < 16 {
+			usedPool[name] = append(pool, append([]byte{}, b...))
+		} else if usedRng.Intn(64) == 0 {
+			pool[usedRng.Intn(16)] = append([]byte{}, b...)
+		}
+		if err := u.Unpack(b); err != nil || !reflect.DeepEqual(valOf(u), r.V1) || !reflect.DeepEqual(u.Pack(), d.Pack()) {
+			r.Reuse = 1
+		}
 		sp, _ := Guarded(func() { _ = d.String(); _ = d.Unit() })
 		r.SPan = B2i(sp)
 		if op == "dec" {
